@@ -121,7 +121,29 @@ def die_in_shutdown(args):
     return res
 
 
-SCENARIOS = dict(kill3=kill3, announce_then_die=announce_then_die, die_in_shutdown=die_in_shutdown)
+def pickler_at_submit(args):
+    """C15: the pickler in force when a task is submitted is the one its worker uses, whatever
+    the parent selects afterwards (immediately, or after the task was dispatched)."""
+    from loky.process_executor import ProcessPoolExecutor
+    from loky.backend.reduction import set_loky_pickler, get_loky_pickler_name
+    e = ProcessPoolExecutor(1)
+    e.submit(abs, -1).result(timeout=20)
+    out = []
+    for at_submit, later in (("cloudpickle", "pickle"), ("pickle", "cloudpickle"),
+                             ("pickle", "pickle"), ("cloudpickle", "cloudpickle")):
+        for gap in (0.0, 0.001, 0.2):
+            set_loky_pickler(at_submit)
+            f = e.submit(get_loky_pickler_name)
+            if gap:
+                time.sleep(gap)
+            set_loky_pickler(later)
+            out.append([at_submit, later, gap, f.result(timeout=20)])
+    set_loky_pickler(None)
+    e.shutdown(wait=True)
+    return dict(cases=out)
+
+
+SCENARIOS = dict(pickler_at_submit=pickler_at_submit, kill3=kill3, announce_then_die=announce_then_die, die_in_shutdown=die_in_shutdown)
 
 
 def main():
